@@ -20,6 +20,7 @@ import Wf.Drv.RandomCoin
 import Wf.Drv.Fri
 import Wf.Drv.TraceTable
 import Wf.Drv.Lde
+import Wf.Drv.Verifier
 import Wf.Drv.ParBook
 
 open Wf.Drv
@@ -48,6 +49,7 @@ def dispatch (line : String) : String :=
   | "c29" :: rest => handleValidate rest
   | "c29t" :: rest => handleTable rest
   | "c28" :: rest => handleLde rest
+  | "vfy" :: rest => handleVerifier rest
   | "c06b" :: rest => handleParBook rest
   | _ => "bad-family"
 
